@@ -19,3 +19,38 @@ Theorem C10_gen_searchsorted_tie : forall (T : Type) (NT : Num T) (a : list T) (
   gen_searchsorted a v = (k, true) <-> searchsorted a v = Ok k.
 Proof. intros T NT a v k. exact (gen_searchsorted_tie a v k). Qed.
 Print Assumptions C10_gen_searchsorted_tie.
+
+(* ---------------------------------------------------------------------------------------------
+   _generate_sample_paths and _generate_sample_paths_sparse (markov/core.py) as REGENERATED from the current source
+   (Gen/Kernels3.v; they call the regenerated searchsorted above): whenever the hand-written model returns Ok X
+   (i.e. reads no array out of bounds), the regenerated kernel writes exactly X into `out` (any initial contents,
+   num_reps x ts_length, ts_length >= 1) and its bounds flag is true.  For every Num instance; proofs in C10/TieGen3.v.
+   Sparse form: the integer arrays (init states, indices, indptr) are non-negative, as CSR arrays are.
+   --------------------------------------------------------------------------------------------- *)
+From QE Require Import Gen.Kernels2 Gen.Kernels3 Base.PivotTie C10.TieGen3.
+Theorem C10_tie_generate_sample_paths :
+  forall (T : Type) (NT : Num T) (cdfs us : list (list T)) (R TS : nat), rect R (TS - 1) us ->
+  forall (inits : list Z) (X : list (list Z)), length inits = R -> (1 <= TS)%nat ->
+  gen_paths_dense cdfs inits us = Ok X ->
+  forall out : list (list Z), rect R TS out -> @gen_generate_sample_paths T NT cdfs inits us out = (X, true).
+Proof. exact (@gen_generate_sample_paths_tie). Qed.
+Print Assumptions C10_tie_generate_sample_paths.
+
+Theorem C10_tie_generate_sample_paths_sparse :
+  forall (T : Type) (NT : Num T) (cdfs1d : list T) (indices indptr : list Z) (us : list (list T)) (R TS : nat),
+  rect R (TS - 1) us -> (forall v, In v indices -> 0 <= v) -> (forall v, In v indptr -> 0 <= v) ->
+  forall (inits : list Z) (X : list (list Z)), length inits = R -> (forall v, In v inits -> 0 <= v) -> (1 <= TS)%nat ->
+  gen_paths_sparse cdfs1d indices indptr inits us = Ok X ->
+  forall out : list (list Z), rect R TS out ->
+  @gen_generate_sample_paths_sparse T NT cdfs1d indices indptr inits us out = (X, true).
+Proof. exact (@gen_generate_sample_paths_sparse_tie). Qed.
+Print Assumptions C10_tie_generate_sample_paths_sparse.
+
+From Coq Require Import QArith.
+(* non-vacuity: a 2-state chain, two replications of length 3, exact Q; dense and CSR forms give the same paths *)
+Example C10_tie_generate_sample_paths_example :
+  gen_paths_dense [[1#2; 1]; [1#4; 1]]%Q [0; 1]%Z [[3#4; 1#8]; [1#8; 1#2]]%Q = Ok [[0; 1; 0]; [1; 0; 1]]%Z /\
+  gen_generate_sample_paths [[1#2; 1]; [1#4; 1]]%Q [0; 1]%Z [[3#4; 1#8]; [1#8; 1#2]]%Q [[7;7;7];[7;7;7]]%Z = ([[0; 1; 0]; [1; 0; 1]]%Z, true) /\
+  gen_generate_sample_paths_sparse [1#2; 1; 1#4; 1]%Q [0; 1; 0; 1]%Z [0; 2; 4]%Z [0; 1]%Z [[3#4; 1#8]; [1#8; 1#2]]%Q [[7;7;7];[7;7;7]]%Z
+    = ([[0; 1; 0]; [1; 0; 1]]%Z, true).
+Proof. vm_compute. repeat split. Qed.
